@@ -315,6 +315,21 @@ func genC05(g *G, n int, out io.Writer) {
 		c.Profiles = []string{prof.Render()}
 		enc.Encode(c)
 	}
+	{
+		// node ids with a `%` that starts no percent-encoded byte (what a careless exporter writes for "100%"): the same graph with the ids
+		// written in full and as compact IRIs / as strings of an `"@type": "@id"` term. (Not relative to @base: the JSON-LD processor
+		// cannot resolve such a reference and the document is an error - a limitation of the dependency, observed, outside the model.)
+		a, b := NodeNS+"discount-100%", NodeNS+"50%off"
+		gr := Graph{{Id: a, Types: []string{NS + "T"}, Props: []Prop{{NS + "p0", []Val{VR(b)}}, {NS + "p1", []Val{VS("100%")}}}}, {Id: b, Types: []string{NS + "T", NS + "U"}}}
+		c := C05Case{Op: "c05", Id: 200001, Graph: gr}
+		c.Docs = append(c.Docs, C05Doc{Text: gr.RenderFlat(), Form: "flat-canonical", Fragment: false},
+			C05Doc{Text: `{"@context":{"n":"` + NodeNS + `","v":"` + NS + `","p0":{"@id":"v:p0","@type":"@id"}},"@graph":[{"@id":"n:discount-100%","@type":"v:T","p0":"n:50%off","v:p1":"100%"},{"@id":"n:50%off","@type":["v:T","v:U"]}]}`, Form: "prefixed-stray-percent", Fragment: false},
+			C05Doc{Text: `[{"@id":"` + b + `","@type":["` + NS + `U","` + NS + `T"]},{"@type":["` + NS + `T"],"` + NS + `p1":["100%"],"` + NS + `p0":[{"@id":"` + b + `"}],"@id":"` + a + `"}]`, Form: "flat-permuted-stray-percent", Fragment: false})
+		prof := ProfileSpec{Name: "c05_percent", Atoms: []Atom{{Kind: "minCount", Path: PP("zz", false), Arg: i64p(1)}, {Kind: "maxCount", Path: PP("p0", false), Arg: i64p(0)}},
+			Validations: []Validation{{Name: "v", Class: NS + "T", Rule: Rule{Atom: ip(0)}}, {Name: "w", Class: NS + "T", Rule: Rule{Atom: ip(1)}, Level: "warning"}}}
+		c.Profiles = []string{prof.Render()}
+		enc.Encode(c)
+	}
 	savedPool := propPool
 	defer func() { propPool = savedPool }()
 	for i := 0; i < n; i++ {
